@@ -65,7 +65,7 @@ Definition jobs_of (r : option jres) : jobs :=
   end.
 
 Definition x_json_items (parse : bytes -> pres) (limit : N) (inp : bytes) (rerr : bool) : list item :=
-  source parse limit inp rerr.
+  source parse false limit inp rerr.
 
 (* CollectJSONStream on a schedule; events after the call has returned are ignored
    (a schedule computed beforehand cannot know that an Add will be refused) *)
